@@ -1,4 +1,5 @@
 import ScrutModel.Lemmas.MarkdownTail
+import ScrutModel.Lemmas.LineParserExit
 /-!
 # C06 — Markdown: every scrut block becomes exactly one test; nothing is dropped
 
@@ -27,7 +28,10 @@ Proved here, for **all** documents (no bound on the number or length of lines, a
     the opening fence, e.g. a longer fence),
   - scrut blocks without a command (comment lines only, or empty),
   - scrut blocks with a command (optional `{…}`, comment lines, `$` line, `>` lines, then
-    expectation lines – among them at most one exit code line, anywhere – closing line as above),
+    expectation lines – among them at most one exit code line, anywhere; no other line of the form
+    `[digits]`: CHANGED with the fix "exit code out of range", `Block.WF` now demands
+    `isExitCodeForm e = false` of every expectation line, because `[2147483648]` is the error
+    `exitCodeOutOfRange` and no longer an expectation – closing line as above),
   the parser succeeds and yields exactly the front-matter texts (`docTexts`) and `expectedTests`:
   one test per block with a command, in order, with shell expression, expectation texts, exit
   code, inline configuration text, 1-based line number of the `$` line and the title as the code
@@ -493,5 +497,29 @@ theorem C06_inline_code_span_document :
     = .ok { docConfigs := [], tests :=
         [{ title := ['T'], command := [['x']], exitCode := none, expectations := [['o']],
            lineNumber := 4, config := some none }] } := by rfl
+
+/-! ## a line `[digits]` is an exit code or an error, never an expectation -/
+
+/-- **C06 (no exit-code line among the expectations)**, for *every* document that parses: no
+expectation of any test has the form `^\[[0-9]+\]$` -- such a line is the exit code of the test
+or, with a number above `i32::MAX`, the error `exitCodeOutOfRange` (before that fix it was read
+as an expectation of kind equal).  The step-level statement is `C07_exit_code_line_step`
+(shared `LineParser`). -/
+theorem C06_exit_code_line_never_expectation (env : Env) (text : List Char) (p : Parsed)
+    (h : parseMarkdown env text = .ok p) :
+    ∀ t ∈ p.tests, ∀ e ∈ t.expectations, isExitCodeForm e = false :=
+  parseLines_noExitForm env (splitLines text) h
+
+/-- **regression** (witness of `C06:exit-code-out-of-range-becomes-expectation`) -/
+theorem C06_exit_code_out_of_range_regression :
+    parseLines envAll ["```scrut".toList, "$ x".toList, "o".toList, "[2147483648]".toList, "```".toList]
+    = .error (.lineParser (.exitCodeOutOfRange 4)) := by rfl
+
+/-- `i32::MAX` itself is an exit code -/
+example :
+    parseLines envAll ["```scrut".toList, "$ x".toList, "[2147483647]".toList, "```".toList]
+    = .ok { docConfigs := [], tests :=
+        [{ title := [], command := [['x']], exitCode := some 2147483647, expectations := [],
+           lineNumber := 2, config := some none }] } := by rfl
 
 end Scrut.Props.C06
